@@ -266,13 +266,14 @@ def monitor(case, out):
                 if o != "iofeed" and i in expected: expected[i] = None
             continue
         if w[0] == "env" and w[1] == "epoll_ctl":
-            if w[-1] == "0": op_ctl_ok.append(" ".join(w[2:5]))
+            if w[-1] == "0": op_ctl_ok.append(" ".join(w[2:5])); last_ki = None
             if w[2] == "DEL" and in_run and batch is not None and w[-1] == "0": info["disarm"] += 1
             if w[-1] == "-17": info["eexist"] += 1
             continue
         if w[0] == "env" and w[1] == "pwait":
             end_dispatch()
             block = w[2] == "block=1"
+            last_ki = " ".join(w[4:])
             ents = parse_pairs(" ".join(w[4:]))
             info["blocks"] += 1
             if block:
